@@ -163,8 +163,8 @@ def finish(REG, prop, tier, seed, t0, reports, sanity, extra, props_mod):
         else:
             cur["paths"] += 1
             cur["secs"] = round(cur["secs"] + o["secs"], 4)
-    named = list(by_id.values())
-    bounded = []
+    named = [o for o in by_id.values() if o.get("kind") != "bounded"]
+    bounded = [dict(o, evaluations=o.get("evaluations", 0)) for o in by_id.values() if o.get("kind") == "bounded"]
     for x in extra:
         if x.get("kind") == "bounded":
             bounded.append(x)
